@@ -88,6 +88,8 @@ func (e *Eng) obligations() {
 	e.messageReaders()
 	// ---- C15: state carried by a reused parser object
 	e.reuseObligations()
+	// ---- C18: the private Ryu copy is the standard library's
+	e.congruence(e.repo)
 	_ = C20
 }
 
